@@ -40,6 +40,8 @@ trait Float: Sized {
         let quot = num / den;
         let rem = num % den;
         let adj = (n_signif_bits(quot) == add_bits) as usize;
+        #[cfg(fpdec_verif)]
+        fpdec_core::verif_cov::hit(20 + adj);
         let mut rnd = ((quot & MASK_EXTRA_BITS[adj]) as u32) << adj as u32;
         rnd |= (rem != 0) as u32;
         let signif = (quot >> (EXTRA_BITS - adj as u32)) as u64;
@@ -48,6 +50,14 @@ trait Float: Sized {
         // biased exponent!
         let mut bits = signif
             + (((Self::EXP_BIAS + exp - 1) as u64) << Self::FRACTION_BITS);
+        #[cfg(fpdec_verif)]
+        if rnd > TIE || rnd == TIE && (signif & 1) as u32 == 1 {
+            fpdec_core::verif_cov::hit(22);
+            if (signif + 1).is_power_of_two() {
+                // rounding carries into the exponent
+                fpdec_core::verif_cov::hit(23);
+            }
+        }
         bits += (rnd > TIE || rnd == TIE && (signif & 1) as u32 == 1) as u64;
         bits |= ((d.coeff < 0) as u64) << (Self::BITS - 1);
         Self::from_bits(bits)
